@@ -10,7 +10,7 @@ from . import _ws
 from . import c12
 
 ID = 'C02'
-TIERS = {'quick': {'seeds': 6000, 'seconds': 75, 'determinism': 32},
+TIERS = {'quick': {'seeds': 6000, 'seconds': 45, 'determinism': 32},
          'thorough': {'seconds': 900, 'determinism': 256, 'minimise_s': 120}}
 RULE = ('seeded worlds with bad outcomes of every kind at random positions (or none), arbitrary '
         'stdout/stderr noise from tests, import failures, layer failures, NotImplementedError '
